@@ -471,7 +471,7 @@ func runDates(o *hx.Opts, res *hx.Result, r *hx.Rand) {
 					judge = judgeFmt
 				}
 				class, detail := judge(b)
-				if _, eoff := b.In(e.loc).Zone(); class != "" && k == 1 && eoff%60 != 0 {
+				if _, eoff := t.In(e.loc).Zone(); class != "" && k == 1 && eoff%60 != 0 {
 					// a field keeps its datetime as marshalled and read back (FormatISO): in a zone whose offset has
 					// seconds that drops them, the known defect of the ISO form
 					c2, d2 := judge(b.Add(-time.Duration(eoff%60) * time.Second))
